@@ -10,7 +10,7 @@ NOTES["C18"] = dict(
           "Props/C18Bridge.lean proves generated = model, definedness for every size including 0, and the property's map/tiling claims on "
           "the generated code; (2) exhaustive correspondence on the property's own finite domain, including an unoptimised (-O0) build."),
     note=("Trusted: Lean kernel (no axioms beyond propext/Classical.choice/Quot.sound, audited each run), the hand-written model of "
-          "partition.hpp/topology.hpp validated against the real classes on every run, int overflow outside the model, MPI_Allgather as a parameter."),
+          "partition.hpp/topology.hpp validated against the real classes on every run, int overflow outside the model, MPI_Allgather as a parameter. Open finding: a matrix without rows leaves its columns without owner."),
     technique="Lean 4 proof (induction + omega) on an executable model; model regenerated from the C++ AST by a translator with bridging lemmas; exhaustive model/implementation correspondence",
 )
 
@@ -180,7 +180,7 @@ NOTES["C12"] = dict(
           "specification (injection, support incl. distance two for extended, finiteness, constants) is evaluated on the outputs of all three "
           "sequential and distributed routines, and the gathered distributed operator is compared with the real sequential operator built "
           "from the same matrix, strength pattern and splitting on every layout."),
-    note="Extended interpolation: specification predicates and par = seq only. Rows touching the distributed-only NoNeighbors label are outside the par = seq comparison.",
+    note="Extended+i interpolation has an executable model (Interp.extended) compared with the real sequential routine; its theorems are in Props/C12Ext.lean when present, otherwise specification predicates only. Truncation is checked against its definition applied to the untruncated operator. Rows touching the distributed-only NoNeighbors label are outside the par = seq comparison; open finding: weak couplings to NoNeighbors points are not lumped by the distributed routines.",
     technique="Lean 4 proof on executable models of direct / modified classical interpolation; Float correspondence; spec evaluation on outputs",
 )
 NOTES["C15"] = dict(
